@@ -1,6 +1,8 @@
 /-
-`NWAffine`: when the traceback never leaves its layer (`tie = false`), every returned pair
-carries the score recomputed from letters, matrix and gap parameters.  Core only.
+`NWAffine`: every returned pair carries the score recomputed from letters, matrix and gap
+parameters (`nwAlign_faithful`, the layer-aware traceback after the repair of K5); for the
+layer-blind traceback it replaced the same holds whenever it never left its layer
+(`nwAlignT_faithful` with `aware = false`, `tie = false`).  Core only.
 -/
 import Biogo.Proofs.NWAffine
 import Biogo.Proofs.TraceFaith
@@ -68,16 +70,16 @@ theorem nw_col0_u (S : Matrix) (o : Int) (r q : List Nat) :
     rw [this]
     congr 1; omega
 
-/-- **Faithful pair scores, the part that holds** (K5): if the traceback of the model of
-    `NWAffine` only takes cases of its current layer, every pair's score is the recomputed one. -/
-theorem nwAlign_faithful (S : Matrix) (o : Int) (r q : List Nat) (hr : r ≠ []) (hq : q ≠ [])
-    (ps : List Pair) (h : nwAlignT S o r q = .ok (ps, false)) : faithful S o r q ps = true := by
+/-- Faithful pair scores for either switch: if the traceback of the model of `NWAffine` only
+    takes cases of its current layer, every pair's score is the recomputed one. -/
+theorem nwAlignT_faithful (aware : Bool) (S : Matrix) (o : Int) (r q : List Nat) (hr : r ≠ []) (hq : q ≠ [])
+    (ps : List Pair) (h : nwAlignT aware S o r q = .ok (ps, false)) : faithful S o r q ps = true := by
   have hR : 0 < r.length := by cases r with | nil => exact absurd rfl hr | cons _ _ => simp
   have hC : 0 < q.length := by cases q with | nil => exact absurd rfl hq | cons _ _ => simp
   have F := nwTable_facts S o r q
   unfold nwAlignT at h
   simp only [] at h
-  cases hl : tbLoop false (nwTable S o r q) S o r q r.length q.length (r.length + q.length)
+  cases hl : tbLoop aware false (nwTable S o r q) S o r q r.length q.length (r.length + q.length)
       { i := r.length, j := q.length,
         layer := (if vgt ((nwTable S o r q).at r.length q.length).u ((nwTable S o r q).at r.length q.length).d
           then (if vgt ((nwTable S o r q).at r.length q.length).l ((nwTable S o r q).at r.length q.length).u then .l else .u)
@@ -87,12 +89,12 @@ theorem nwAlign_faithful (S : Matrix) (o : Int) (r q : List Nat) (hr : r ≠ [])
   | ok st =>
     rw [hl] at h
     simp only [] at h
-    have hinv := loop_inv false _ S o r q r.length q.length r.length q.length _ _ st
+    have hinv := loop_inv aware false _ S o r q r.length q.length r.length q.length _ _ st
       (init_inv r.length q.length r.length q.length _ (Nat.le_refl _) (Nat.le_refl _)) hl
-    have hfaith := loop_faith false _ S o r q r.length q.length r.length q.length _ _ st
+    have hfaith := loop_faith aware false _ S o r q r.length q.length r.length q.length _ _ st
       (init_inv r.length q.length r.length q.length _ (Nat.le_refl _) (Nat.le_refl _))
       (fun _ => init_faith S o r q r.length q.length _ hR hC) hl
-    have hstop := loop_stops _ S o r q r.length q.length _ _ st hl (Nat.le_refl _)
+    have hstop := loop_stops aware _ S o r q r.length q.length _ _ st hl (Nat.le_refl _)
     -- the value invariant, to know the layer the loop stopped in
     obtain ⟨x, hx⟩ : ∃ x, cellBest ((nwTable S o r q).at r.length q.length) = some x := by
       obtain ⟨a, hga, hna⟩ := exists_global_noAdj r q hr hq
@@ -107,7 +109,7 @@ theorem nwAlign_faithful (S : Matrix) (o : Int) (r q : List Nat) (hr : r ≠ [])
       refine ⟨Nat.le_refl _, Nat.le_refl _, x, ?_, by simp [total]⟩
       simp only []
       rw [cellBest_layer, hx]
-    obtain ⟨st2, hloop2, ⟨_, _, v, hv, _⟩, _⟩ := loop_good F x (r.length + q.length) _ hinit (Nat.le_refl _)
+    obtain ⟨st2, hloop2, ⟨_, _, v, hv, _⟩, _⟩ := loop_good aware F x (r.length + q.length) _ hinit (Nat.le_refl _)
     rw [hl] at hloop2
     cases hloop2
     -- the tie flag of the result is the state's
@@ -159,5 +161,33 @@ theorem nwAlign_faithful (S : Matrix) (o : Int) (r q : List Nat) (hr : r ≠ [])
     · rw [if_neg hij] at h
       rw [← (Prod.mk.inj (Except.ok.inj h)).1]
       exact hemit
+
+/-- the layer-aware traceback of `NWAffine` never raises the ghost flag -/
+theorem nwAlignT_aware_tie (S : Matrix) (o : Int) (r q : List Nat) (ps : List Pair) (t : Bool)
+    (h : nwAlignT true S o r q = .ok (ps, t)) : t = false := by
+  unfold nwAlignT at h
+  simp only [] at h
+  split at h
+  · cases h
+  · rename_i st hl
+    have ht := loop_tie_aware false _ S o r q _ _ _ _ st hl
+    simp only [] at ht
+    split at h <;> (cases h; exact ht)
+
+/-- **Faithful pair scores, `NWAffine`** (after the repair of K5): every pair the model returns
+    carries the score recomputed from the letters, the matrix and the gap parameters. -/
+theorem nwAlign_faithful (S : Matrix) (o : Int) (r q : List Nat) (hr : r ≠ []) (hq : q ≠ [])
+    (ps : List Pair) (h : nwAlign S o r q = .ok ps) : faithful S o r q ps = true := by
+  unfold nwAlign at h
+  cases hT : nwAlignT true S o r q with
+  | error e => rw [hT] at h; cases h
+  | ok res =>
+    obtain ⟨ps', t⟩ := res
+    rw [hT] at h
+    simp only [Except.map] at h
+    cases h
+    have := nwAlignT_aware_tie S o r q ps t hT
+    subst this
+    exact nwAlignT_faithful true S o r q hr hq ps hT
 
 end Biogo.Proofs.NWFaith
